@@ -82,10 +82,15 @@ def check_C11(ctx, rep):
         rep.check(same, "R25", i, "cfg-diff:" + i, "%s differs between default features and --no-default-features" % i, where=H.where(a), detail=how,
                   nontrivial=(a.output in (TF, "f64", "(TwoFloat, TwoFloat)")))
     # closures: compare by parent ident order
-    ca = sorted([b for b in fa.live if b.kind == "Closure"], key=lambda b: b.key)
-    cb = sorted([b for b in fb.live if b.kind == "Closure"], key=lambda b: b.key)
-    same = len(ca) == len(cb) and all(canon_mir(x.mir) == canon_mir(y.mir) for x, y in zip(ca, cb))
-    rep.check(same, "R25", "closures (%d)" % len(ca), "cfg-diff:closures", "closure bodies differ between configurations", nontrivial=False)
+    ca = {b.key: b for b in fa.live if b.kind == "Closure"}
+    cb = {b.key: b for b in fb.live if b.kind == "Closure"}
+    common = sorted(set(ca) & set(cb))
+    differ = [k for k in common if canon_mir(ca[k].mir) != canon_mir(cb[k].mir)]
+    # a closure present in one configuration only must belong to an item that is itself in that configuration only
+    lone_keys = [(ia.get(i) or ib.get(i)).key for i in only_a + only_b]
+    orphan = [k for k in sorted(set(ca) ^ set(cb)) if not any(k.startswith(pk) for pk in lone_keys)]
+    rep.check(not differ and not orphan, "R25", "closures (%d in both configurations)" % len(common), "cfg-diff:closures",
+              "closure bodies differ between configurations: %s" % (differ + orphan)[:4], nontrivial=False)
     # constants
     va = {F.norm_path(c["path"]): (c.get("val") or {}).get("hex") or (c.get("val") or {}).get("bits") for c in fa.consts}
     vb = {F.norm_path(c["path"]): (c.get("val") or {}).get("hex") or (c.get("val") or {}).get("bits") for c in fb.consts}
@@ -94,7 +99,7 @@ def check_C11(ctx, rep):
             continue
         rep.check(va.get(k) == vb.get(k), "R25c", "const " + k, "cfg-diff-const:" + k, "constant %s differs between configurations" % k, nontrivial=False)
     rep.analysed["bodies_compared"] = n; rep.analysed["by_tree"] = n_tree; rep.analysed["by_raw_mir"] = n_raw
-    rep.floor("R25", n, 380, "function bodies present in both configurations")
+    rep.floor("R25", n, 370, "function bodies present in both configurations")
 
 
 # ------------------------------------------------------------------ configuration transfer (every other property)
@@ -114,7 +119,7 @@ def transfer(ctx, rep, covered, prop=None):
     """RB: the rules of a property are decided on the default-feature build; they carry over to the no_std
     build because every body they evaluated is the same there, the only difference being the fused
     multiply-add provider, which must be libm::fma(x, y, z) behind the crate's single wrapper."""
-    fa = ctx.facts("A"); fb = ctx.facts("B")
+    fa = ctx.facts("A"); fb = ctx.facts("S" if prop == "C20" else "B")      # C20's serde bodies exist only with the serde feature
     ia = {b.ident(): b for b in fa.live if b.kind != "Closure"}
     ib = {b.ident(): b for b in fb.live if b.kind != "Closure"}
     sites_b = direct_fma_sites(fb)
